@@ -337,5 +337,26 @@ def r8_memo(chk: Check) -> None:
                          "MEMO-KEY(anchor modules of this property): the examples of an operation depend on that operation's definition: a cache keyed by less replays another operation's examples", floor=0)
 
 
+def r9_per_item_suppression(chk: Check) -> None:
+    chk.rule("C17.R9", "SUPPRESS-SCOPE(explicitly given names are ALL taken out of the fill-in schema): get_parameters_strategy removes every name in `exclude` (the parameters that carry an example) from `properties` and `required` of the schema the REST is generated from; `required.remove(name)` raises ValueError for an optional parameter, so the suppression is per item - a `with suppress(ValueError)` / `try` AROUND the loop ends the loop at the first optional name, the later names stay in the fill-in schema and `copied.update(generated)` overwrites their documented examples with generated values", floor=1)
+    P = chk.project
+    fn = P.func("specs/openapi/_hypothesis.py:get_parameters_strategy")
+    loops = [l for l in walk_body(fn.node) if isinstance(l, ast.For) and "exclude" in unparse(l.iter)]
+    if not loops:
+        chk.undecided("C17.R9", fn, "loop over `exclude`", "not found", fn.loc())
+        return
+    for l in loops:
+        raising = [c for c in ast.walk(l) if isinstance(c, ast.Call) and last_attr(c) in ("remove", "index")]
+        construct = "every excluded name is processed"
+        outer = [a for a in ancestors(l) if a is not fn.node and ((isinstance(a, ast.With) and any("suppress" in unparse(it.context_expr) for it in a.items)) or (isinstance(a, ast.Try) and any(is_within(l, b_) for b_ in a.body) and a.handlers))]
+        outer = [a for a in outer if is_within(a, fn.node)]
+        if raising and outer:
+            chk.violation("C17.R9", fn, construct,
+                          f"`{unparse(raising[0], 40)}` can raise inside the loop and the suppression (`{unparse(outer[0], 40).splitlines()[0]}`) encloses the WHOLE loop: the first optional parameter with an example ends it, every later explicit name (e.g. a required parameter declared after an optional one) keeps its slot in the fill-in schema and its example is replaced by a generated value in every examples-phase request",
+                          fn.loc(l))
+        else:
+            chk.ok("C17.R9", fn, construct, "suppression (if any) is per item", fn.loc(l))
+
+
 def rules(tier: str) -> list:  # type: ignore[type-arg]
-    return [r1_marks, r2_invalid_headers, r3_sibling_sources, r4_explicit_containers, r5_round_robin, r6_presence_by_membership, r7_overrides_merge_per_parameter, r8_memo]
+    return [r1_marks, r2_invalid_headers, r3_sibling_sources, r4_explicit_containers, r5_round_robin, r6_presence_by_membership, r7_overrides_merge_per_parameter, r8_memo, r9_per_item_suppression]
